@@ -26,7 +26,7 @@ def gen_job(ctx, scope, stride=1, offset=0, le=True, name=None, with_model=True,
     return dict(module="CompileGen", cfg=cfg, name="Gen_" + (name or scope), workers=1, timeout=3000, java_opts="-Xss512m"), out
 
 
-def replay(ctx, cases, concs=3, expand=3, tag="", jail=False):
+def replay(ctx, cases, concs=3, expand=3, tag="", jail=False, block=False):
     """jail: the replaying process changes its root to an empty directory before its first compilation (no /proc, /sys, /etc): what a
     policy compiles to is a function of the policy, not of what the process can find out about the machine."""
     bindir = ctx.harness()
@@ -37,6 +37,9 @@ def replay(ctx, cases, concs=3, expand=3, tag="", jail=False):
         jd = ctx.path("jail", "x")
         jd = os.path.dirname(jd)
         extra = ["-jail", jd]
+    if block and os.uname().machine == "x86_64":
+        # ... nor of what the kernel lets the process do: seccomp(2) itself is answered with ENOSYS (a container profile, an old kernel)
+        extra.append("-blockseccomp")
     rc, out, err = ctx.run([os.path.join(bindir, "polreplay"), "-in", cases, "-failures", fails, "-summary", summ,
                             "-seed", str(ctx.seed), "-concs", str(concs), "-expand", str(expand)] + extra, timeout=3000)
     if rc != 0:
@@ -53,7 +56,7 @@ def account(ctx, summary, failures, mine, decision_owner):
     cov["evaluations"] += summary["events"]
     cov["distinct_nontrivial"] += summary["distinct_nontrivial"]
     cov["traces_validated_against_impl"] += summary["compilations"]
-    cov.setdefault("replayed", []).append({k: summary[k] for k in ("scope", "cases", "compilations", "accepted", "rejected", "events", "drift", "programs_over_255", "xnet_crosschecked", "dump_checked", "retargeted_values", "host_order_compilations", "whole_table_compilations", "compilations_under_PER_LINUX32", "process_without_a_file_system")})
+    cov.setdefault("replayed", []).append({k: summary[k] for k in ("scope", "cases", "compilations", "accepted", "rejected", "events", "drift", "programs_over_255", "xnet_crosschecked", "dump_checked", "retargeted_values", "host_order_compilations", "whole_table_compilations", "compilations_under_PER_LINUX32", "process_without_a_file_system", "process_whose_seccomp_call_is_answered_ENOSYS")})
     for s in summary["samples"] or []:
         ctx.sample(s)
     for d in summary["drift_sample"] or []:
@@ -104,8 +107,9 @@ def run_family(ctx, plan, mine, decision_owner):
         if r["violated"]:
             raise vlib.Machinery("TLC: %s violated in %s: the specification of the unchanged design does not satisfy its own invariant" % (r["violated"], r["name"]))
     for i, (p, out) in enumerate(zip(plan, outs)):
-        # every second scope (which ones depends on the seed; the scope of all action constants always) is replayed by a process that has
-        # no file system left
+        # of every three scopes (which ones depends on the seed) one is replayed by a process that has no file system left and one by a process
+        # whose seccomp(2) calls are answered with ENOSYS; the scope of all action constants by a process with both
         s, f = replay(ctx, out, concs=p.get("concs", 3), expand=p.get("expand", 3), tag=os.path.basename(out),
-                      jail=p.get("jail", p["scope"] in ("actions", "kactions") or (i + ctx.seed) % 2 == 1))
+                      jail=p.get("jail", p["scope"] in ("actions", "kactions") or (i + ctx.seed) % 3 == 1),
+                      block=p.get("block", p["scope"] in ("actions", "kactions") or (i + ctx.seed) % 3 == 2))
         account(ctx, s, f, mine, decision_owner)
